@@ -236,6 +236,16 @@ func GenC07(seed, index uint64) *Workload {
 		}
 		w.Tasks = append(w.Tasks, ops)
 	}
+	switch {
+	case famRun:
+		w.Note = "family"
+	case storm:
+		w.Note = "storm"
+	case bigRun:
+		w.Note = "big"
+	case deep:
+		w.Note = "deep"
+	}
 	w.Sched = randSchedule(r, ntasks, 5)
 	if (famRun || storm) && r.P(1, 2) {
 		// these runs are about narrow windows next to shared state
